@@ -27,7 +27,7 @@ OUT = tlc.OUT
 INV = ["WorkerCredsExact", "BootErrorNotSilent", "PermittedDropSucceeds", "MasterKeepsIdentity", "HeartbeatWritable"]
 ASIS = set()   # InitSkipsSetgid, UsernameUnbound, ZeroUnset: fixed in /repo (f8cb1e6)
 FIXED_DEVS = {"InitSkipsSetgid", "UsernameUnbound", "ZeroUnset"}
-MUTANT_DEVS = {"UidBeforeGid": "PermittedDropSucceeds", "DropAfterLoad": "WorkerCredsExact",
+MUTANT_DEVS = {"SwallowEperm": "BootErrorNotSilent", "UidBeforeGid": "PermittedDropSucceeds", "DropAfterLoad": "WorkerCredsExact",
                "NoTmpChown": "HeartbeatWritable"}
 
 REAL_IDS = {"root": (0, 0), "other": (33, 33), "user": (65534, 65534)}
@@ -153,12 +153,12 @@ def server_records(obs):
         at = ({"ruid": al["res"][0], "euid": al["res"][1], "suid": al["res"][2], "rgid": al["res"][3],
                "egid": al["res"][4], "sgid": al["res"][5], "groups": al["groups"]} if al else w)
         recs.append({"mode": "server", "gen": g["kind"], "tag": spec["tag"],
-                     "case": {"master": "root", "user": "other" if spec.get("user") is not None else "unset",
+                     "case": {"master": "root", "cap": "all", "user": "other" if spec.get("user") is not None else "unset",
                               "group": "other" if spec.get("group") is not None else "unset",
                               "init": bool(spec.get("initgroups")), "known": True},
                      "uid": uid, "gid": gid, "ug": ug, "known": True,
                      "m0": cred_from_status(ms[0]), "m1": cred_from_status(ms[-1]), "end": "running",
-                     "loaded": True, "atload": at, "w": w, "beat": True, "eperm": False, "calls": [],
+                     "loaded": True, "atload": at, "w": w, "beat": True, "eperm": False, "capless": False, "calls": [],
                      "sock": obs.get("sock") or [], "exc": ""})
     return recs
 
@@ -209,6 +209,7 @@ def judge(ctx, traces):
             e = {k: r[k] for k in ("mode", "case", "uid", "gid", "ug", "known", "m0", "m1", "end", "loaded",
                                    "atload", "w", "beat", "eperm", "calls")}
             e["sock"] = r.get("sock") or []
+            e["capless"] = bool(r.get("capless"))
             evs.append(e)
         clean.append({"ev": evs})
     verdicts, stats = tlc.validate_batch("PrivsTrace", "PrivsTrace.cfg", clean, name="PrivsTrace_C20")
@@ -287,10 +288,12 @@ def c20(ctx):
             rec = drv.run_fake(row)
             rec["sock"] = []
             traces.append([rec])
+
         ctx.coverage["fake_kernel_cases"] = len(rows)
         # (b) real forked processes: the complete product with real ids and spellings
         if os.geteuid() == 0:
-            specs = [real_spec(row, n) for n, row in enumerate(rows)]
+            # (a missing capability is only played on the fake kernel)
+            specs = [real_spec(row, n) for n, row in enumerate(r for r in rows if r["case"].get("cap", "all") == "all")]
             recs = call_driver("real", specs)
             bad = [r for r in recs if r.get("end") == "harness-error"]
             if bad:
